@@ -479,6 +479,10 @@ class ExcelCompiler:
             for child_cell in self.dep_graph.successors(cell):
                 if child_cell.value is not None:
                     self._reset(child_cell)
+                elif child_cell.address.is_unbounded_range:
+                    # the reference cell of an unbounded range may never have been
+                    # evaluated (stored results) while the cells using it have values
+                    self._reset(child_cell, force=True)
 
     def value_tree_str(self, address, indent=0):
         iterative_eval_tracker.inc_iteration_number()
